@@ -389,6 +389,11 @@ int main(void)
 		dsub[0].def.number = 9;
 		p_sn = (char *)dsub[0].name;
 		decl[1].subopts = dsub;
+		/* an end marker is any entry without a name: this one carries pointers (a table filled from a prototype entry) */
+		decl[2].comment = p_c0;
+		decl[2].def.string = p_ds;
+		decl[2].def.parsed = p_dp;
+		decl[2].subopts = dsub;
 		arm();
 		d = cfg_dupopt_array(decl);
 		/* the caller's declarations are never touched, whatever happened */
@@ -401,6 +406,8 @@ int main(void)
 			V_WITNESS("failure path");
 		} else {
 			V_ASSERT(V_R_OK(d, 3 * sizeof(cfg_opt_t)), "[C16] the copy is a live array");
+			V_ASSERT(d[2].name == NULL && d[2].comment == NULL && d[2].def.string == NULL && d[2].def.parsed == NULL && d[2].subopts == NULL && d[2].values == NULL,
+				 "[C16] the copy's end marker holds nothing of the caller's (a free-form key created in that slot later starts clean)");
 			V_ASSERT(d != decl && d[0].name != p_n0 && d[0].comment != p_c0 && d[0].def.string != p_ds && d[0].def.parsed != p_dp && d[1].name != p_n1 && d[1].subopts != dsub &&
 					 d[1].subopts != NULL && d[1].subopts[0].name != p_sn,
 				 "[C16] every string and nested array of the copy is a fresh object");
